@@ -1,0 +1,15 @@
+//go:build verif
+
+package announce
+
+// VerifYield, when set by a verification harness, is called at the lock,
+// unlock and channel steps of the Receiver (Close, announce check, delivery,
+// un-cache, pubsub watcher). It lets the harness park goroutines and steer
+// them through chosen interleavings. point names the call site.
+var VerifYield func(point string)
+
+func verifYield(point string) {
+	if f := VerifYield; f != nil {
+		f(point)
+	}
+}
